@@ -209,7 +209,7 @@ func S3(tier string, fees bool) *Scenario {
 		{Kind: "add_allowed", AID: 1, Bidder: "bid2", Max: "4"},
 	}
 	al := &Alphabet{
-		Bidders: []string{"bid1", "bid2"}, AllowBidders: []string{"bid1"},
+		Bidders: []string{"bid1", "bid2", "bid2^"}, AllowBidders: []string{"bid1"},
 		AllowCaps: []string{"10"}, UpdateCaps: []string{"2"},
 		FixedAmts:   []string{"3"},
 		BatchPrices: []string{"1", "2"}, WorthAmts: []string{"6"}, ManyAmts: []string{"3"},
@@ -258,6 +258,10 @@ func S4(tier string, supply, capA, capB string, update bool) *Scenario {
 		al.WorthAmts = []string{"1", "5", "12"}
 		al.ManyAmts = []string{"1", "3", "6"}
 		bud["bid"] = 4
+	}
+	if update {
+		// the same account may write its address in upper case (bech32 allows it)
+		al.Bidders = append(al.Bidders, "bid1^")
 	}
 	return scenFrom(fmt.Sprintf("S4-orderbook-s%s-caps%s,%s-upd%v", supply, capA, capB, update), cfg, pre, bud, al, nil).tagged("ledger")
 }
